@@ -1184,7 +1184,7 @@ let occ_of_sx = function
 let c18 = function
   | [_; A "panic"] -> "FAIL key=panic the pipeline panicked"
   | [_; L [A why]] -> "OK 0 " ^ why
-  | [_; L ordered; L claims; L scanner] ->
+  | (_ :: L ordered :: L claims :: L scanner :: more) ->
     let ord = Stdlib.List.map occ_of_sx ordered in
     let cl = Stdlib.List.map (function L [o; i] -> (occ_of_sx o, n_of_int (int_of_sx i)) | _ -> failwith "claim") claims in
     let sc = ints_of_sx (L scanner) in
@@ -1197,7 +1197,44 @@ let c18 = function
       Printf.sprintf "FAIL key=production-table-index%s the production table uses token number %d for terminal %s, which is a different terminal in the scanner / lookahead tables"
         (if mixed then "-mixed-quoting" else "") (int_of_n i) (show_word t)
     end
-    else Printf.sprintf "OK %d %s" (if mixed then 1 else 0) (if mixed then "equal-text-different-kind-or-lookahead" else "plain")
+    else begin
+      (* the parts numbered by the ANALYSIS (lookahead automata, LR table, scanner transitions, skip lists) against the
+         production table: the automata must be exact for the grammar in production-table numbering, the LR table must
+         validate against it, a transition trigger / skipped token must be a terminal of its scanner state *)
+      let tag = Printf.sprintf "%s" (if mixed then "equal-text-different-kind-or-lookahead" else "plain") in
+      match more with
+      | [g2; L [A "ll"; kk; L autos]; L states] ->
+        let bad_state = Stdlib.List.exists (function
+            | L [L mem; L trig; L skip] ->
+              let m = ints_of_sx (L mem) in
+              Stdlib.List.exists (fun t -> not (Stdlib.List.mem t m)) (ints_of_sx (L trig) @ ints_of_sx (L skip))
+            | _ -> true) states in
+        if bad_state then "FAIL key=scanner-transition-terminal a scanner state's transition trigger or skip list names a token number that is not a terminal of that state"
+        else begin
+          let g = cfg_of_sx g2 in
+          if Stdlib.List.length g.Cfg.prods > 40 then Printf.sprintf "OK %d %s" (if mixed then 1 else 0) tag
+          else
+            let r = c07 [A "x"; kk; L [A "built"; g2; L autos]] in
+            if Stdlib.String.length r >= 2 && Stdlib.String.sub r 0 2 = "OK" then Printf.sprintf "OK %d %s automata-agree" (if mixed then 1 else 0) tag
+            else if Stdlib.String.length r >= 8 && Stdlib.String.sub r 0 8 = "FAIL key" then
+              "FAIL key=automata-vs-production-table:" ^ Stdlib.String.sub r 9 (Stdlib.String.length r - 9)
+            else r
+        end
+      | [g2; L [A "lr"; tb]; L states] ->
+        let bad_state = Stdlib.List.exists (function
+            | L [L mem; L trig; L skip] ->
+              let m = ints_of_sx (L mem) in
+              Stdlib.List.exists (fun t -> not (Stdlib.List.mem t m)) (ints_of_sx (L trig) @ ints_of_sx (L skip))
+            | _ -> true) states in
+        if bad_state then "FAIL key=scanner-transition-terminal a scanner state's transition trigger or skip list names a token number that is not a terminal of that state"
+        else begin
+          let tb' = lr_table_of_sx tb and g = cfg_of_sx g2 in
+          let nstates = Stdlib.List.length tb'.LRParser.lr_states in
+          if LRValidate.lr_validate (nat_of_int (4 * nstates + 50)) g tb' then Printf.sprintf "OK %d %s lr-table-agrees" (if mixed then 1 else 0) tag
+          else "FAIL key=lr-table-vs-production-table the LALR(1) table does not validate against the grammar in the numbering of the production table"
+        end
+      | _ -> Printf.sprintf "OK %d %s" (if mixed then 1 else 0) tag
+    end
   | _ -> "FAIL malformed case"
 
 (* C26 *)
